@@ -2,6 +2,7 @@
    certificate kinds of Ser/SerModel.v, never the loaders).  No proofs. *)
 From Coq Require Import List NArith Arith.
 From GmsmVerif Require Import Ser.SerModel.
+Import ListNotations.
 
 (* the key is the private half of the certificate's public key *)
 Definition key_matches (c : certk) (k : keyk) : Prop :=
@@ -14,3 +15,24 @@ Definition key_matches (c : certk) (k : keyk) : Prop :=
 
 Definition sm2_pair (c : certk) (k : keyk) : Prop := exists x y, c = CEc O x y /\ k = KSm2 x y.
 
+
+(* PEM level: the certificate offered is the first CERTIFICATE block, the key offered is the first block labelled as a
+   private key; the key is usable when its bytes are in one of the formats the loaders read (PKCS#1 RSA, PKCS#8 RSA /
+   ECDSA / SM2) - the label itself does not matter *)
+Definition first_cert (f : pemfile) : option certk :=
+  match filter (fun b => match fst b with LCert => true | _ => false end) f with
+  | [] => None
+  | b :: _ => Some (match snd b with PCert c => c | _ => CBad end)
+  end.
+Definition first_key (f : pemfile) : option pcontent := getKey f.
+Definition readable_key (c : pcontent) : option keyk :=
+  match c with
+  | PPkcs1Rsa n | PPkcs8Rsa n => Some (KRsa n)
+  | PPkcs8Ecdsa cu x y => Some (KEcdsa cu x y)
+  | PPkcs8Sm2 x y => Some (KSm2 x y)
+  | _ => None
+  end.
+Definition pem_pair_matches (cf kf : pemfile) : Prop :=
+  exists c kc k, first_cert cf = Some c /\ first_key kf = Some kc /\ readable_key kc = Some k /\ key_matches c k.
+Definition pem_sm2_pair (cf kf : pemfile) : Prop :=
+  exists c kc k, first_cert cf = Some c /\ first_key kf = Some kc /\ readable_key kc = Some k /\ sm2_pair c k.
